@@ -8,7 +8,7 @@ ParamsDesign == PS(1..3, 0..2, 0..2, 1..3, 0..2, 0..2, 0..2, {0}, {9})
 \* design: epoch budgets and the epsilon guard (EK = number of non-negligible reductions)
 ParamsBudget == PS(1..2, 0..1, {0, 1}, 1..2, 0..1, 0..1, {0, 1}, {0, 2, 3, 4}, {1, 2, 9})
 \* replayed into the real controller
-ParamsReplayQuick == PS({1, 2}, {0, 2}, {0, 1}, {1, 2}, {0, 2}, {0, 1}, {0, 1}, {0, 3}, {1, 9})   \* burn-ins of 2: the last burn-in epoch differs from the first
+ParamsReplayQuick == PS({1, 3}, {0, 2}, {0, 1}, {1, 2}, {0, 2}, {0, 1}, {0, 1}, {0, 3}, {1, 9})   \* burn-ins of 2: the last burn-in epoch differs from the first
 ParamsReplayThorough == PS(1..3, {0, 1, 2}, {0, 1}, {1, 2}, {0, 2}, {0, 1}, {0, 1}, {0, 4}, {1, 9})
 L3 == {1, 2, 3}
 L4 == {1, 2, 3, 4}
